@@ -32,7 +32,9 @@ def readByte : Bytes → Option (UInt8 × Bytes)
 
 /-- `io.ReadFull` of `n` bytes -/
 def readN (n : Nat) (bs : Bytes) : Option (Bytes × Bytes) :=
-  if n ≤ bs.length then some (bs.take n, bs.drop n) else none
+  -- (`n ≤ bs.length`, tested on the taken prefix so that the cost is O(n), not O(|bs|))
+  let t := bs.take n
+  if t.length = n then some (t, bs.drop n) else none
 
 def ofBE (bs : Bytes) : Nat := bs.foldl (fun acc b => acc * 256 + b.toNat) 0
 
